@@ -102,6 +102,73 @@ def run_job(job, tier, seed):
                             ob.raw(f"JSONSHAPE {core.ints(exp_stored)}", core.ints(stored), 'shape numpy infers from the JSON nested list differs from the model',
                                    key=('jsonshape', tr, shp), site=dict(site, op='json-shape'))
                         os.unlink(fn)
+            # basis-name lists other than the layout's own: any list of strings is returned as written (unequal lengths, the
+            # lexicographically largest name not the longest, repeated prefixes, the empty name)
+            letters = 'abexyz019'
+            name_lists = [[''] + ['z'] + ['a' * (2 + i % 5) + str(i) for i in range(gaD - 2)],
+                          ['e%d' % i for i in range(9, 9 + gaD)],
+                          [''.join(letters[int(c)] for c in rng.integers(0, len(letters), size=int(rng.integers(0, 7)))) + '_%d' % i for i in range(gaD)],
+                          ['blade-with-a-long-name-%03d' % i if i == 1 else 'y%d' % i for i in range(gaD)]]
+            for ni, nl in enumerate(name_lists):
+                arr = rng.integers(-9, 10, size=(3, gaD)).astype(np.float64)
+                for fmt, comp, tr in itertools.product(('ga', 'json'), (True, False), (True, False)):
+                    k += 1
+                    fn = os.path.join(tmp, f"n{k}.{fmt}")
+                    site = dict(format=fmt, compression=comp, transpose=tr, sig=sig, names=nl)
+                    res.case(('names', fmt, comp, tr, tuple(nl)), nontrivial=True)
+                    res.count('custom_names')
+                    try:
+                        if fmt == 'ga':
+                            cio.write_ga_file(fn, arr, metric, nl, compression=comp, transpose=tr)
+                            data, m2, n2, sup = cio.read_ga_file(fn)
+                        else:
+                            cio.write_json_file(fn, arr, metric, nl, compression=comp, transpose=tr)
+                            data, m2, n2, sup = cio.read_json_file(fn)
+                    except Exception as e:
+                        res.violate('writing or reading a file with a custom basis-name list raises', site, repr(e), 'round trip', dict(site, op='io-names-raise', error=type(e).__name__))
+                        continue
+                    got = [x.decode('utf-8') if isinstance(x, bytes) else str(x) for x in n2]
+                    if got != nl or not np.array_equal(data, arr):
+                        res.violate('the basis names read back are not the names written', site, got, nl, dict(format=fmt, compression=comp, transpose=tr, sig=sig, op='names'))
+                    os.unlink(fn)
+            # a history on one MVArray: saved once, then changed through a view / in place / through an element, then saved again
+            for shp in ((4,), (2, 3)):
+                vals = rng.integers(-9, 10, size=shp + (gaD,)).astype(float)
+                for route in ('view', 'inplace-arith', 'element-setitem', 'element-value', 'own-setitem'):
+                    arr = cf.MVArray.from_value_array(L, vals)
+                    k += 1
+                    fn = os.path.join(tmp, f"h{k}.ga")
+                    site = dict(format='mvarray', route=route, shape=list(shp), sig=sig)
+                    res.case(('save-history', route, shp, tuple(sig), vals.tobytes()))
+                    res.count('mvarray_save_history')
+                    try:
+                        arr.save(fn)
+                        _ = arr.value
+                        new = L.MultiVector(np.arange(1, gaD + 1, dtype=float))
+                        if route == 'view':
+                            arr.reshape(-1)[int(np.prod(shp)) - 1] = new
+                        elif route == 'inplace-arith':
+                            arr *= 2
+                        elif route == 'element-setitem':
+                            arr[(0,) * len(shp)][()] = 42.0
+                        elif route == 'element-value':
+                            arr[(0,) * len(shp)].value[gaD - 1] = 7.5
+                        else:
+                            arr[(0,) * len(shp)] = new
+                        current = np.array([x.value for x in arr.ravel()]).reshape(shp + (gaD,))
+                        if np.array_equal(current, vals):
+                            res.violate('harness: the modification did not change the array', site, None, None, dict(site, op='save-history-noop'))
+                        os.unlink(fn)
+                        arr.save(fn)
+                        back = L.load_ga_file(fn)
+                        loaded = np.array([x.value for x in back.ravel()]).reshape(shp + (gaD,))
+                        if back.shape != arr.shape or not np.array_equal(loaded, current) or not np.array_equal(arr.value, current):
+                            res.violate('MVArray.save after the array was modified does not write the current multivectors (load_ga_file returns others)', site,
+                                        loaded.tolist()[:2], current.tolist()[:2], dict(site, op='save-history'))
+                    except Exception as e:
+                        res.violate('MVArray.save / load_ga_file raises in a save-modify-save history', site, repr(e), 'round trip', dict(site, op='save-history-raise'))
+                    if os.path.exists(fn):
+                        os.unlink(fn)
             # MVArray.save / load_ga_file
             for shp in ((4,), (2, 3), (1,)):
                 vals = rng.integers(-9, 10, size=shp + (gaD,)).astype(float)
